@@ -2073,8 +2073,9 @@ def _cbcoordchk(fout, K, bset, refpoint, grids, ttl, verbose, rb_normalizer):
     if len(refpoint) != 6:
         raise ValueError("reference point must have length of 6")
 
-    # make refpoint be relative to b-set:
-    refpoint = refpoint - np.min(bset)  # not -= because that can change bset
+    # make refpoint be relative to b-set (positions of its entries in `bset`):
+    srt = np.argsort(bset)
+    refpoint = srt[np.searchsorted(bset, refpoint, sorter=srt)]
 
     kbb = K[np.ix_(bset, bset)]
 
@@ -2890,12 +2891,15 @@ def cbcheck(
     # use geometry to generate a set of rb-modes:
     rbg = n2p.rbgeom_uset(uset, uref)
 
+    # `rbg` has one row per b-set DOF: locate the reference DOF within the (sorted) b-set
+    bref_b = np.searchsorted(bset, bref)
+
     if rb_norm is None:
-        if np.any(np.diff(bref) != 1):
+        if np.any(np.diff(bref_b) != 1):
             rb_norm = True
 
     if rb_norm:
-        rb_normalizer = rbg[bref]
+        rb_normalizer = rbg[bref_b]
         ttl = (
             "Stiffness-based coordinates relative to `uref` "
             "because of normalization (`rb_norm`):\n "
